@@ -51,7 +51,7 @@ def _sig(sig):
     return name, params[1:-1], ret
 
 
-def induction_obligations(lemma, spec_files, marker, prop, extra_vars=(), fixed_vars=()):
+def induction_obligations(lemma, spec_files, marker, prop, extra_vars=(), fixed_vars=(), extra_defs=''):
     """Induction over the recursion of one define-funs-rec block.  `prop(name, call, params)` builds the
     property of one function for a call expression (or None if the lemma says nothing about it)."""
     texts = [open(os.path.join(os.path.dirname(SPEC), f)).read() for f in spec_files]
@@ -75,7 +75,7 @@ def induction_obligations(lemma, spec_files, marker, prop, extra_vars=(), fixed_
         bodies = _sexps(bodies_s[1:-1])
     assert len(sigs) == len(bodies)
     funs = [n for n, _, _ in sigs]
-    pre = '(set-logic ALL)\n' + '\n'.join(texts[:-1]) + '\n' + text[:i]
+    pre = '(set-logic ALL)\n' + '\n'.join(texts[:-1]) + '\n' + text[:i] + '\n' + extra_defs + '\n'
     decl = ['(declare-const %s %s)' % v for v in fixed_vars]
     evars = ' '.join('(%s %s)' % v for v in extra_vars)
     for name, params, ret in sigs:
@@ -173,12 +173,62 @@ def literal_obligations():
     return out
 
 
+def hpnames_obligations():
+    """L-HPNAMES by induction over the index k of hpnames"""
+    def prop(name, call, P):
+        return ('(=> (forall ((j Int)) (! (=> (and (<= 0 j) (< j %s)) (and (= (select %s j) (unified aa j)) '
+                '(=> (not (unified aa j)) (= (select %s j) (tavname (tanth aa j)))))) :pattern ((select %s j)))) (= %s (aliasnames aa %s)))'
+                % (P['k'], P['hpn'], P['hp'], P['hpn'], call, P['k']))
+    return induction_obligations('L-HPNAMES', ['control.smt2'], '(define-fun-rec hpnames ', prop, fixed_vars=[('aa', 'TAL')])
+
+
 def prove_clause_lemmas(timeout=20):
-    return smt.run_many(cnt_obligations() + literal_obligations(), timeout=timeout)
+    return smt.run_many(cnt_obligations() + literal_obligations() + hpnames_obligations(), timeout=timeout)
+
+
+def _block_text(spec_file, marker):
+    text = open(os.path.join(os.path.dirname(SPEC), spec_file)).read()
+    i, j = _block(text, marker)
+    return text[i:j]
+
+
+def resolve_obligations():
+    """L-RES: (1) resolve returns a resolved term, resolvel keeps the length and works pointwise (induction over resolve/resolvel);
+    (2) a resolved term is a fixed point of resolve (induction over isres/isresl, with the real definition of resolve)"""
+    def prop1(name, call, P):
+        if name == 'resolve':
+            return '(isres %s %s)' % (call, P['s'])
+        return ('(and (isresl %s %s) (= (len %s) (len %s)) (forall ((i Int)) (! (=> (and (<= 0 i) (< i (len %s))) '
+                '(= (nth %s i) (resolve_ (nth %s i) %s))) :pattern ((nth %s i)))))'
+                % (call, P['s'], call, P['l'], P['l'], call, P['l'], P['s'], call))
+    o1 = induction_obligations('L-RES-RES', ['terms.smt2'], '(define-funs-rec (\n  (resolve ', prop1)
+
+    def prop2(name, call, P):
+        if name == 'isres':
+            return '(=> %s (= (resolve %s %s) %s))' % (call, P['t'], P['s'], P['t'])
+        return '(=> %s (= (resolvel %s %s) %s))' % (call, P['l'], P['s'], P['l'])
+    o2 = induction_obligations('L-RES-FIX', ['terms.smt2'], '(define-funs-rec ((isres ', prop2,
+                               extra_defs=_block_text('terms.smt2', '(define-funs-rec (\n  (resolve '))
+    return o1 + o2
+
+
+def wfl_obligations():
+    """L-WFL-NTH: every element of a well-formed argument list is well formed (induction over nth)"""
+    pre = '(set-logic ALL)\n' + open(SPEC).read() + '\n' + open(os.path.join(os.path.dirname(SPEC), 'pyval.smt2')).read().split('; L-WFL-NTH')[0]
+    q = ('(declare-fun P (TList Int) Bool)\n'
+         '(assert (forall ((l TList) (i Int)) (! (= (P l i) (=> (and (wfll l) (<= 0 i) (< i (len l))) (wfl (nth l i)))) :pattern ((P l i)))))\n'
+         '(declare-const l TList) (declare-const i Int)\n'
+         '(assert (=> (not ((_ is nil) l)) (P (tl l) (- i 1))))\n'      # induction hypothesis for the tail
+         '(assert (not (P l i)))\n(check-sat)')
+    return [('spec.L-WFL-NTH.nth', pre + q)]
+
+
+def prove_pyval_lemmas(timeout=20):
+    return smt.run_many(wfl_obligations(), timeout=timeout)
 
 
 def prove_frame(timeout=20):
-    return smt.run_many(frame_obligations() + len_nonneg_obligation(), timeout=timeout)
+    return smt.run_many(frame_obligations() + len_nonneg_obligation() + resolve_obligations(), timeout=timeout)
 
 
 def prove_heap_lemmas(timeout=20):
@@ -186,7 +236,7 @@ def prove_heap_lemmas(timeout=20):
 
 
 if __name__ == '__main__':
-    for r in prove_frame() + prove_heap_lemmas() + prove_clause_lemmas():
+    for r in prove_frame() + prove_heap_lemmas() + prove_clause_lemmas() + prove_pyval_lemmas():
         print(r['name'], r['verdict'], r['solver'], r['seconds'])
 
 
